@@ -277,6 +277,15 @@ def wildcard(prog: Program, rep: Report) -> None:
     rep.check(rule, v1.qual, "v1: grid and forcing use the same module", bool(pairs) and all(a == b and a in allowed for a, b in pairs) and len(pairs) == 2, what_bad=f"(grid, forcing) modules over the outcomes: {sorted(pairs)}; both must be the gridforce module, or ladim.ROMS for the legacy ladim1 name", what_ok="same", loc=v1.loc())
     mods = {repr(g.get("module")) if isinstance(g, dict) else "?" for g in grids}
     rep.check(rule, v2.qual, "v2: an omitted grid module is the forcing module", bool(grids) and mods == {repr(Sym(("forcing", "module")))}, what_bad=f"with the grid section omitted the grid module becomes {sorted(mods)}", what_ok="inherited", loc=v2.loc())
+    # the two defaults are independent: a grid section that names its file but no module still inherits the
+    # forcing module; one that names a module but no file still gets the forcing file
+    o1 = v2_outcomes(prog, present=[("grid", "filename"), ("forcing", "module")], absent=[("grid", "module")])
+    ok1 = bool(o1) and all(o["status"] == "ok" and o["overlay"].get(("grid",), {}).get("module") == Sym(("forcing", "module")) and "filename" not in o["overlay"].get(("grid",), {}) for o in o1)
+    rep.check(rule, v2.qual, "v2: a grid section with a file name but no module inherits the forcing module", ok1, what_bad=f"grid section after normalisation: {[o['overlay'].get(('grid',), {}) for o in o1][:2]} (outcomes {[o['status'] for o in o1][:2]}): the grid is built by the default class although the forcing names another module", what_ok="module inherited, file name kept", loc=v2.loc())
+    o2 = v2_outcomes(prog, present=[("grid", "module")], absent=[("grid", "filename")])
+    vals2 = [o["overlay"].get(("grid",), {}) for o in o2 if o["status"] == "ok"]
+    ok2 = bool(vals2) and len(vals2) == len(o2) and all("module" not in g and Sym(("forcing", "filename")) in __import__("sa.confeval", fromlist=["syms_of"]).syms_of(g.get("filename")) for g in vals2)
+    rep.check(rule, v2.qual, "v2: a grid section with a module but no file name gets the forcing file", ok2, what_bad=f"grid section after normalisation: {vals2[:2]}", what_ok="file name from the forcing, module kept", loc=v2.loc())
     nomod = [o for o in v2_outcomes(prog, absent=[("grid",), ("forcing", "module")]) if o["status"] == "ok"]
     okn = bool(nomod) and all("module" not in o["overlay"].get((), {}).get("grid", {}) for o in nomod)
     rep.check(rule, v2.qual, "v2: without any module entry the default classes are used (no module written)", okn and len(nomod) == len(v2_outcomes(prog, absent=[("grid",), ("forcing", "module")])), what_bad="a v2 file that names no module does not get through the normaliser", what_ok="left to init_module's default", loc=v2.loc())
